@@ -1,0 +1,274 @@
+//go:build verif
+
+package engine
+
+//@ -- sync/atomic.AddInt64 (NewVariable's counter): "AddInt64 atomically adds delta to *addr and returns the new value."
+//@ -- Without it every NewVariable() havocs the whole heap in the proofs below (cells of captured variables, list cells just built).
+//@ extern sync/atomic.AddInt64
+//@   modifies *addr
+//@   ensures[the-new-value-is-stored-and-returned] result == wrap64(old(*addr) + delta) && *addr == result
+
+//@ spec fun isPairC16L(t Term) bool = t is *compound && (t as *compound).functor == 0 && len((t as *compound).args) == 2
+//@ spec fun fstC16L(t Term) Term = (t as *compound).args[0]
+//@ spec fun sndC16L(t Term) Term = (t as *compound).args[1]
+//@ spec fun isCellC16L(t Term) bool = t is *compound && (t as *compound).functor == atomDot && len((t as *compound).args) == 2
+
+//@ func lengthAddendum
+//@   property C16 C13
+//@   nosafety
+//@   trusted-frame
+//@   frozen vm, suffix, offset, list, length, k, env
+//@   bind alts = Delay#1
+//@   ensures[both-alternatives-are-handed-to-the-trampoline] called(alts) && result == alts
+//@   at-call Delay requires[exactly-two-different-alternatives-both-made-here] len(a0) == 2 && a0[0] != a0[1] && fresh(a0[0]) && fresh(a0[1])
+
+//@ func lengthAddendum$1
+//@   property C16
+//@   nosafety
+//@   trusted-frame
+//@   bind ans = Unify#1
+//@   ensures[the-answer-is-offered] called(ans) && result == ans
+//@   at-call Unify requires[the-pattern-is-the-open-tail-and-the-length-variable] isPairC16L(a1) && fstC16L(a1) is Variable && (fstC16L(a1) as Variable) == list && sndC16L(a1) is Variable && (sndC16L(a1) as Variable) == length
+//@   at-call Unify requires[the-answer-closes-the-tail-with-the-suffix-built-so-far-and-counts-the-elements-skipped-and-added] isPairC16L(a2) && fstC16L(a2) == suffix && sndC16L(a2) is Integer && (sndC16L(a2) as Integer) == offset
+//@   at-call Unify requires[for-the-caller-s-continuation-under-the-caller-s-bindings] a0 == vm && a3 == k && a4 == env
+
+//@ func lengthAddendum$2
+//@   property C16 C13
+//@   nosafety
+//@   trusted-frame
+//@   bind next, oerr = addI#1
+//@   bind rec = lengthAddendum#1
+//@   at-call NewVariable requires[a-new-variable-is-made] true
+//@   at-call addI requires[one-more-element] a0 == offset && a1 == 1
+//@   at-call Atom.Apply requires[one-more-variable-in-front-of-the-suffix-built-so-far] a0 == atomDot && len(a1) == 2 && a1[0] is Variable && a1[1] == suffix
+//@   at-call lengthAddendum requires[continues-with-the-list-cell-just-built] a1 is *compound
+//@   at-call lengthAddendum requires[continues-with-the-next-length] a2 == next && oerr == nil
+//@   at-call lengthAddendum requires[for-the-same-tail-and-length-variables-continuation-and-bindings] a0 == vm && a3 == list && a4 == length && a5 == k && a6 == env
+//@   ensures[continues-unless-the-length-overflows] called(next) && oerr == nil ==> called(rec) && result == rec
+//@   at-call representationError requires[the-length-exceeds-max-integer] a0 == flagMaxInteger && a1 == env
+
+//@ func appendLists
+//@   property C16 C13
+//@   nosafety
+//@   trusted-frame
+//@   frozen vm, xs, ys, zs, k, env
+//@   bind alts = Delay#1
+//@   ensures[both-clauses-are-handed-to-the-trampoline] called(alts) && result == alts
+//@   at-call Delay requires[exactly-two-different-alternatives-both-made-here] len(a0) == 2 && a0[0] != a0[1] && fresh(a0[0]) && fresh(a0[1])
+
+//@ func appendLists$1
+//@   property C16
+//@   nosafety
+//@   trusted-frame
+//@   bind ans = Unify#1
+//@   ensures[the-first-clause-is-tried] called(ans) && result == ans
+//@   at-call Unify requires[append-of-the-empty-list-the-pattern-is-the-first-and-the-second-argument] isPairC16L(a1) && fstC16L(a1) == xs && sndC16L(a1) == ys
+//@   at-call Unify requires[append-of-the-empty-list-to-l-is-l] isPairC16L(a2) && fstC16L(a2) == atomEmptyList && sndC16L(a2) == zs
+//@   at-call Unify requires[for-the-caller-s-continuation-under-the-caller-s-bindings] a0 == vm && a3 == k && a4 == env
+
+//@ func appendLists$2
+//@   property C16 C13
+//@   nosafety
+//@   trusted-frame
+//@   bind ans = Unify#1
+//@   ensures[the-second-clause-is-tried] called(ans) && result == ans
+//@   at-call Unify requires[the-pattern-is-the-first-and-the-third-argument] isPairC16L(a1) && fstC16L(a1) == xs && sndC16L(a1) == zs
+//@   at-call Unify requires[both-are-list-cells] isPairC16L(a2) && isCellC16L(fstC16L(a2)) && isCellC16L(sndC16L(a2))
+//@   at-call Unify requires[with-the-same-variable-as-head] fstC16L(fstC16L(a2)) is Variable && fstC16L(fstC16L(a2)) == fstC16L(sndC16L(a2))
+//@   at-call Unify requires[and-the-two-tail-variables-the-recursion-goes-on-with] sndC16L(fstC16L(a2)) is Variable && (sndC16L(fstC16L(a2)) as Variable) == l1 && sndC16L(sndC16L(a2)) is Variable && (sndC16L(sndC16L(a2)) as Variable) == l3
+//@   at-call Unify requires[head-and-tails-are-three-different-new-variables] (fstC16L(fstC16L(a2)) as Variable) != l1 && l1 != l3 && (fstC16L(fstC16L(a2)) as Variable) != l3
+//@   at-call Unify requires[under-the-caller-s-bindings-the-body-is-a-new-continuation] a0 == vm && a4 == env && fresh(a3)
+
+//@ func appendLists$2$1
+//@   property C16 C13
+//@   nosafety
+//@   trusted-frame
+//@   bind rec = appendLists#1
+//@   ensures[the-body-of-the-second-clause-is-run] called(rec) && result == rec
+//@   at-call appendLists requires[recursion-on-the-two-tails-with-the-same-second-list] a1 is Variable && (a1 as Variable) == l1 && a2 == ys && a3 is Variable && (a3 as Variable) == l3
+//@   at-call appendLists requires[for-the-caller-s-continuation-under-the-bindings-of-the-head-unification] a0 == vm && a4 == k && a5 == param(0)
+
+//@ func Append
+//@   property C16
+//@   nosafety
+//@   trusted-frame
+//@   let x0 = resolve(env, xs)
+//@   bind more = (*ListIterator).Next#1
+//@   bind ierr = (*ListIterator).Err#1
+//@   bind fast = Unify#1
+//@   bind slow = appendLists#1
+//@   loop 1 invariant[the-spine-of-the-first-list-is-walked-as-it-is-written-no-variable-looked-up-no-open-tail-no-cycle-allowed] x0 is Compound && iter.List == x0 && iter.Env == nil && !iter.AllowPartial && !iter.AllowCycle
+//@   at-call (*ListIterator).Err requires[asked-of-the-same-iterator-after-it-has-run-to-its-end] called(more) && !more && a0 == argof(more, 0)
+//@   ensures[a-non-empty-proper-first-list-takes-the-lazy-path] x0 is Compound && called(ierr) && ierr == nil ==> called(fast) && result == fast
+//@   ensures[anything-but-a-compound-goes-to-the-two-clauses] !(x0 is Compound) ==> called(slow) && result == slow && !called(fast)
+//@   ensures[a-partial-or-improper-first-list-goes-to-the-two-clauses] x0 is Compound && called(ierr) && ierr != nil ==> called(slow) && result == slow && !called(fast)
+//@   at-call Unify requires[only-for-a-proper-list] x0 is Compound && called(ierr) && ierr == nil
+//@   at-call Unify requires[the-third-argument-is-unified-with-a-lazy-term-that-continues-the-first-list] a1 == zs && a2 is *partial && (a2 as *partial).Compound == (x0 as Compound) && fresh((a2 as *partial).tail)
+//@   at-call Unify requires[for-the-caller-s-continuation-under-the-caller-s-bindings] a0 == vm && a3 == k && a4 == env
+//@   at-call appendLists requires[the-caller-s-first-and-third-argument-continuation-and-bindings] a0 == vm && a1 == param(1) && a3 == zs && a4 == k && a5 == env
+
+//@ func lengthRundown
+//@   property C16
+//@   nosafety
+//@   trusted-frame
+//@   bind elems, merr = makeSlice#1
+//@   bind ans = Unify#1
+//@   loop 1 invariant -1 <= $i && $i < len(elems)
+//@   loop 1 invariant[every-position-passed-holds-a-variable] forall j int :: 0 <= j && j <= $i ==> elems[j] is Variable
+//@   at-call makeSlice requires[room-for-exactly-the-missing-elements] a0 == n
+//@   at-call resourceError requires[no-room-is-a-memory-resource-error] a0 == resourceMemory && a1 == env && merr != nil
+//@   ensures[the-open-tail-is-closed-unless-memory-runs-out] called(elems) && merr == nil ==> called(ans) && result == ans
+//@   at-call Unify requires[the-open-tail-receives-the-list] a1 is Variable && (a1 as Variable) == list
+//@   at-call Unify requires[no-missing-element-closes-the-tail-with-the-empty-list] n == 0 ==> a2 == atomEmptyList
+//@   at-call Unify requires[otherwise-a-list-of-exactly-the-missing-number-of-elements] n > 0 ==> a2 is list && len(a2 as list) == n && (a2 as list) == elems
+//@   at-call Unify requires[never-for-a-negative-number] merr == nil && n >= 0
+//@   at-call Unify requires[every-element-is-a-variable] forall j int :: 0 <= j && j < n ==> elems[j] is Variable
+//@   loop 1 maintains[every-position-in-turn-receives-a-variable] 0 <= $i + 1 && $i + 1 < len(elems) && elems[$i + 1] is Variable
+//@   at-call Unify requires[for-the-caller-s-continuation-under-the-caller-s-bindings] a0 == vm && a3 == k && a4 == env
+
+//@ func SkipMaxList
+//@   property C16
+//@   nosafety
+//@   trusted-frame
+//@   let mx = resolve(env, max)
+//@   let bound = ite(resolve(env, max) is Integer, (resolve(env, max) as Integer), 9223372036854775807)
+//@   bind de = domainError#1
+//@   bind more = (*ListIterator).Next#1
+//@   bind rest = (*ListIterator).Suffix#1
+//@   bind ans = Unify#1
+//@   at-call domainError requires[a-negative-maximum-is-a-domain-error-not-less-than-zero-of-the-maximum] a0 == validDomainNotLessThanZero && a1 == mx && a2 == env && mx is Integer && (mx as Integer) < 0
+//@   at-call typeError requires[a-maximum-that-is-no-integer-is-a-type-error-integer-of-the-maximum] a0 == validTypeInteger && a1 == mx && a2 == env && !(mx is Variable) && !(mx is Integer)
+//@   ensures[a-negative-maximum-is-refused] mx is Integer && (mx as Integer) < 0 ==> called(de) && result != nil && result.err == de && !called(ans)
+//@   ensures[a-maximum-that-is-no-integer-is-refused] !(mx is Variable) && !(mx is Integer) ==> result != nil && isTypeErr(result.err, validTypeInteger, mx) && !called(ans)
+//@   ensures[otherwise-the-count-and-the-rest-are-offered] mx is Variable || (mx is Integer && (mx as Integer) >= 0) ==> called(ans) && result == ans
+//@   loop 1 invariant[the-caller-s-list-is-walked-under-the-caller-s-bindings-and-a-cycle-ends-the-walk] iter.List == list && iter.Env == env && !iter.AllowCycle
+//@   loop 1 invariant[the-count-stays-within-the-maximum] 0 <= n && n <= bound
+//@   at-call (*ListIterator).Next requires[a-step-is-taken-only-below-the-maximum] n < bound
+//@   at-call (*ListIterator).Suffix requires[the-rest-is-what-the-walk-left] a0 == addr(iter)
+//@   at-call Unify requires[the-pattern-is-the-caller-s-count-and-rest] isPairC16L(a1) && fstC16L(a1) == skip && sndC16L(a1) == suffix
+//@   at-call Unify requires[the-answer-is-the-count-and-what-the-walk-left] isPairC16L(a2) && fstC16L(a2) is Integer && (fstC16L(a2) as Integer) == n && called(rest) && sndC16L(a2) == rest
+//@   at-call Unify requires[the-count-is-within-the-maximum] 0 <= n && n <= bound
+//@   at-call Unify requires[the-walk-stops-short-of-the-maximum-only-where-the-iterator-found-no-further-cell] n < bound ==> called(more) && !more
+//@   at-call Unify requires[so-short-of-the-maximum-the-rest-is-no-list-cell-unless-the-walk-met-a-cycle] n < bound && isCons(rest) ==> isTypeErr(iter.err, validTypeList, list)
+//@   at-call Unify requires[for-the-caller-s-continuation-under-the-caller-s-bindings] a0 == vm && a3 == k && a4 == env
+
+//@ func Length
+//@   property C16
+//@   nosafety
+//@   trusted-frame
+//@   frozen vm, k
+//@   let n0 = resolve(env, length)
+//@   bind de = domainError#1
+//@   bind walk = SkipMaxList#1
+//@   at-call domainError requires[a-negative-length-is-a-domain-error-not-less-than-zero-of-the-length] a0 == validDomainNotLessThanZero && a1 == n0 && a2 == env && n0 is Integer && (n0 as Integer) < 0
+//@   at-call typeError requires[a-length-that-is-no-integer-is-a-type-error-integer-of-the-length] a0 == validTypeInteger && a1 == n0 && a2 == env && !(n0 is Variable) && !(n0 is Integer)
+//@   ensures[a-negative-length-is-refused] n0 is Integer && (n0 as Integer) < 0 ==> called(de) && result != nil && result.err == de && !called(walk)
+//@   ensures[a-length-that-is-no-integer-is-refused] !(n0 is Variable) && !(n0 is Integer) ==> result != nil && isTypeErr(result.err, validTypeInteger, n0) && !called(walk)
+//@   ensures[otherwise-the-list-is-walked] n0 is Variable || (n0 is Integer && (n0 as Integer) >= 0) ==> called(walk) && result == walk
+//@   at-call SkipMaxList requires[the-caller-s-list-is-walked-for-at-most-the-given-length-under-the-caller-s-bindings] a0 == vm && a2 == n0 && a3 == list && a6 == env
+//@   at-call SkipMaxList requires[count-and-rest-go-to-the-two-variables-the-continuation-reads] a1 is Variable && (a1 as Variable) == skipped && a4 is Variable && (a4 as Variable) == suffix
+//@   at-call SkipMaxList requires[which-are-two-different-new-variables] skipped != suffix
+//@   at-call SkipMaxList requires[the-continuation-is-the-case-analysis-on-the-rest] fresh(a5)
+
+//@ func Length$1
+//@   property C16
+//@   nosafety
+//@   trusted-frame
+//@   requires[the-length-is-a-variable-or-a-non-negative-integer] n is Variable || (n is Integer && (n as Integer) >= 0)
+//@   let len0 = n
+//@   let sk = resolve(param(0), skipped)
+//@   let sf = resolve(param(0), suffix)
+//@   bind rd = lengthRundown#1
+//@   bind ad = lengthAddendum#1
+//@   bind ans = Unify#1
+//@   bind re1 = resourceError#1
+//@   bind re2 = resourceError#2
+//@   at-call lengthRundown requires[an-open-tail-and-a-given-length-the-tail-receives-exactly-the-elements-that-are-missing] sf is Variable && n is Integer && a1 == (sf as Variable) && (sk is Integer && 0 <= (sk as Integer) ==> a2 == (n as Integer) - (sk as Integer))
+//@   at-call lengthRundown requires[for-the-caller-s-continuation-under-the-bindings-of-the-walk] a0 == vm && a3 == k && a4 == param(0)
+//@   at-call lengthAddendum requires[an-open-tail-and-no-length-the-enumeration-starts-with-the-empty-suffix-and-the-number-of-elements-skipped] sf is Variable && n is Variable && a1 == atomEmptyList && (sk is Integer ==> a2 == (sk as Integer)) && a3 == (sf as Variable) && a4 == (n as Variable)
+//@   at-call lengthAddendum requires[unless-the-length-is-the-tail-itself] (n as Variable) != (sf as Variable)
+//@   at-call lengthAddendum requires[for-the-caller-s-continuation-under-the-bindings-of-the-walk] a0 == vm && a5 == k && a6 == param(0)
+//@   at-call resourceError#1 requires[the-length-being-the-tail-itself-no-finite-list-exists] a0 == resourceFiniteMemory && a1 == param(0) && sf is Variable && n is Variable && (n as Variable) == (sf as Variable)
+//@   at-call Unify requires[a-proper-list-its-length-is-the-number-of-elements-skipped] sf is Atom && (sf as Atom) == atomEmptyList && a1 == n && a2 is Integer && (sk is Integer ==> a2 == sk)
+//@   at-call Unify requires[for-the-caller-s-continuation-under-the-bindings-of-the-walk] a0 == vm && a3 == k && a4 == param(0)
+//@   at-call resourceError#2 requires[a-list-that-goes-on-beyond-what-was-walked-has-no-finite-length] a0 == resourceFiniteMemory && a1 == param(0) && isCons(sf) && n is Variable
+//@   ensures[an-open-tail-with-a-given-length-is-closed] sf is Variable && len0 is Integer ==> called(rd) && result == rd
+//@   ensures[an-open-tail-without-a-length-is-enumerated] sf is Variable && len0 is Variable && (len0 as Variable) != (sf as Variable) ==> called(ad) && result == ad
+//@   ensures[an-open-tail-that-is-the-length-is-a-resource-error] sf is Variable && len0 is Variable && (len0 as Variable) == (sf as Variable) ==> called(re1) && result != nil && result.err == re1
+//@   ensures[a-proper-list-has-its-length] sf is Atom && (sf as Atom) == atomEmptyList ==> called(ans) && result == ans
+//@   ensures[a-list-ending-in-another-atom-has-no-length] sf is Atom && (sf as Atom) != atomEmptyList ==> result == falsePromise
+//@   ensures[a-list-longer-than-the-given-length-fails] isCons(sf) && !(len0 is Variable) ==> result == falsePromise
+//@   ensures[an-endless-list-without-a-length-is-a-resource-error] isCons(sf) && len0 is Variable ==> called(re2) && result != nil && result.err == re2
+//@   ensures[anything-else-at-the-end-is-no-list] !(sf is Variable) && !(sf is Atom) && !isCons(sf) ==> result == falsePromise
+
+//@ func Nth0
+//@   property C16
+//@   nosafety
+//@   trusted-frame
+//@   bind r = nth#1
+//@   ensures[nth0-is-nth-counting-from-zero] called(r) && result == r
+//@   at-call nth requires[counting-from-zero] a1 == 0
+//@   at-call nth requires[the-caller-s-arguments-continuation-and-bindings] a0 == vm && a2 == n && a3 == list && a4 == elem && a5 == k && a6 == env
+
+//@ func Nth1
+//@   property C16
+//@   nosafety
+//@   trusted-frame
+//@   bind r = nth#1
+//@   ensures[nth1-is-nth-counting-from-one] called(r) && result == r
+//@   at-call nth requires[counting-from-one] a1 == 1
+//@   at-call nth requires[the-caller-s-arguments-continuation-and-bindings] a0 == vm && a2 == n && a3 == list && a4 == elem && a5 == k && a6 == env
+
+//@ func nth
+//@   property C16
+//@   nosafety
+//@   trusted-frame
+//@   requires[the-first-index-is-zero-or-one] base == 0 || base == 1
+//@   frozen vm, elem, k, env
+//@   let nr = resolve(env, n)
+//@   bind more1 = (*ListIterator).Next#1
+//@   bind cur1 = (*ListIterator).Current#1
+//@   bind ierr1 = (*ListIterator).Err#1
+//@   bind alts = Delay#1
+//@   bind more2 = (*ListIterator).Next#2
+//@   bind cur2 = (*ListIterator).Current#2
+//@   bind ierr2 = (*ListIterator).Err#2
+//@   bind ans = Unify#1
+//@   at-store ListIterator.List requires[the-caller-s-list-is-walked] v == list
+//@   at-store ListIterator.Env requires[under-the-caller-s-bindings] v == env
+//@   at-store ListIterator.AllowCycle requires[only-the-search-for-a-given-index-may-go-round-a-cyclic-list] v && nr is Integer
+//@   at-call typeError requires[an-index-that-is-no-integer-is-a-type-error-integer-of-the-index] a0 == validTypeInteger && a1 == nr && a2 == env && !(nr is Variable) && !(nr is Integer)
+//@   ensures[an-index-that-is-no-integer-is-refused] !(nr is Variable) && !(nr is Integer) ==> result != nil && isTypeErr(result.err, validTypeInteger, nr)
+//@   ensures[an-index-below-the-first-has-no-element] nr is Integer && (nr as Integer) < base ==> result == falsePromise
+//@   -- index unbound: every position becomes an alternative, in list order
+//@   bind grown = append#1
+//@   loop 1 invariant[as-many-alternatives-as-positions-passed-the-next-position-is-the-first-index-plus-that-number] local(i, Integer) == base + len(ks)
+//@   at-call (*ListIterator).Current#1 requires[the-element-of-the-cell-just-stepped-on] a0 == argof(more1, 0) && called(more1) && more1
+//@   at-call append#1 requires[each-cell-adds-one-new-alternative-at-the-end] a0 == ks && len(a1) == 1 && fresh(a1[0])
+//@   at-call append#1 requires[which-carries-the-element-of-that-cell] called(cur1) && e == cur1
+//@   loop 1 maintains[every-cell-adds-its-alternative] called(grown)
+//@   at-call (*ListIterator).Err#1 requires[asked-of-the-same-iterator-after-it-has-run-to-its-end] called(more1) && !more1 && a0 == argof(more1, 0)
+//@   at-call Delay requires[all-the-alternatives-collected-in-the-order-of-the-list] a0 == ks && nr is Variable && called(ierr1) && ierr1 == nil
+//@   ensures[a-list-that-does-not-end-properly-is-the-iterator-s-error] nr is Variable && called(ierr1) && ierr1 != nil ==> result != nil && result.err == ierr1 && !called(alts)
+//@   ensures[otherwise-the-positions-are-enumerated] nr is Variable && called(ierr1) && ierr1 == nil ==> called(alts) && result == alts
+//@   ensures[an-unbound-index-always-walks-the-whole-list] nr is Variable ==> called(ierr1)
+//@   -- index given: the element at exactly that position
+//@   loop 2 invariant[the-position-counts-up-from-the-first-index-and-has-not-passed-the-given-one] nr is Integer && base <= local(i, Integer) && local(i, Integer) <= (nr as Integer)
+//@   at-call (*ListIterator).Current#2 requires[the-element-of-the-cell-just-stepped-on] a0 == argof(more2, 0) && called(more2) && more2
+//@   at-call Unify requires[the-element-at-exactly-the-given-position] nr is Integer && local(i, Integer) == (nr as Integer) && called(cur2) && a2 == cur2
+//@   at-call Unify requires[for-the-caller-s-continuation-under-the-caller-s-bindings] a0 == vm && a3 == k && a4 == env
+//@   at-call Unify requires[it-is-the-caller-s-element-that-is-unified-with-it] a1 == elem
+//@   at-call (*ListIterator).Err#2 requires[asked-of-the-same-iterator-after-it-has-run-to-its-end] called(more2) && !more2 && a0 == argof(more2, 0)
+//@   ensures[a-list-that-ends-improperly-before-the-position-is-the-iterator-s-error] nr is Integer && called(ierr2) && ierr2 != nil ==> result != nil && result.err == ierr2
+//@   ensures[a-list-that-ends-before-the-position-has-no-such-element] nr is Integer && called(ierr2) && ierr2 == nil ==> result == falsePromise
+//@   ensures[the-answer-or-the-end-of-the-list] nr is Integer && (nr as Integer) >= base ==> (called(ans) && result == ans) || called(ierr2)
+
+//@ func nth$1
+//@   property C16
+//@   nosafety
+//@   trusted-frame
+//@   bind ans = Unify#1
+//@   ensures[the-alternative-offers-its-position] called(ans) && result == ans
+//@   at-call Unify requires[the-pattern-is-the-unbound-index-and-the-caller-s-element] isPairC16L(a1) && fstC16L(a1) is Variable && (fstC16L(a1) as Variable) == n && sndC16L(a1) == elem
+//@   at-call Unify requires[the-answer-is-this-alternative-s-position-and-the-element-found-there] isPairC16L(a2) && fstC16L(a2) is Integer && (fstC16L(a2) as Integer) == i && sndC16L(a2) == e
+//@   at-call Unify requires[for-the-caller-s-continuation-under-the-caller-s-bindings] a0 == vm && a3 == k && a4 == env
